@@ -230,6 +230,26 @@ void Exec::do_op3(const Op &op, bool top, Inst *S, Inst *T, bool deny) {
             long b = op.b;
             // what "the same key" means for a duplicated descriptor is not specified (the source is keyed by the duplicate's number)
             if (present && (S->fds[idx].dup || (b & 2))) { counters_skipped++; break; }
+            // bit 10 of b: the descriptor given is one that cannot be polled (a regular file).  On a RUNNING module the registration has to be refused and must leave
+            // no trace; on any other module it would be accepted and make the next start / resume fail half way (what such a module is, is not specified): not generated
+            if ((b >> 10) & 1) {
+                if (present || !legal || S->state != M_MOD_RUNNING || !ctx.looping || S->tb_on) { counters_skipped++; cls.insert("unpollable-descriptor-on-non-running-module:skipped"); break; }
+                harness_closing = true; int ufd = open("/proc/self/exe", O_RDONLY | O_CLOEXEC); harness_closing = false;
+                if (ufd < 0) break;
+                int ulf = 0; if (b & 4) ulf |= M_SRC_ONESHOT; // (never auto-close: the descriptor stays the harness' own)
+                int ur = m_mod_src_register_fd(handle(S), ufd, (m_src_flags)ulf, nullptr);
+                trace("fd_reg of an unpollable descriptor -> " + std::to_string(ur));
+                cls.insert("unpollable-descriptor-registration"); nt["C09"] = nt["C09"] || S->fds.size() >= 1;
+                if (ur == 0) fail("C09.4", "m_mod_src_register_fd accepted a descriptor that cannot be polled on a RUNNING module");
+                else {
+                    // no trace: the same number can be registered again only if nothing of the refused registration stayed behind
+                    int again = m_mod_src_register_fd(handle(S), ufd, (m_src_flags)ulf, nullptr);
+                    if (again == -EEXIST) fail("C09.4", "a refused registration of descriptor " + std::to_string(ufd) + " left the source registered (a second attempt answers -EEXIST)");
+                }
+                struct stat ust; if (fstat(ufd, &ust) != 0) fail("C20.2", "the library closed a descriptor whose registration it refused");
+                harness_closing = true; close(ufd); harness_closing = false;
+                break; // (the probe that follows compares the source counts)
+            }
             refused_fd_reg = present ? idx : -1; // a refused registration leaves no trace: in particular it must not close the descriptor
             int lf = 0; if (b & 1) lf |= M_SRC_FD_AUTOCLOSE; if (b & 2) lf |= M_SRC_DUP; if (b & 4) lf |= M_SRC_ONESHOT;
             long token = 0x2000 + next_token++;
